@@ -261,6 +261,10 @@ class Program:
         self.renames, self.rename_notes = renames.find_renames(raws)
         if self.renames:
             raws = {f: renames.rewrite(raw, self.renames) for f, raw in raws.items()}
+        fmap, fnotes = renames.field_renames(raws)
+        if fmap:
+            raws = {f: renames.rewrite_fields(raw, fmap) for f, raw in raws.items()}
+            self.rename_notes = list(self.rename_notes) + fnotes
         # helper functions that do not exist in the reference tree are inlined into their callers (tdq/inline.py)
         try:
             from . import inline
